@@ -38,6 +38,15 @@ RULE = (
     "corpus/C20/regression.json (the documented corners: all-default meta, zero sizes next to empty strings, "
     "nameless hash, obj_name, root key + overwrite after reopen, md5 slot of a listing, '/' in a part) runs first. "
     "Oracle failures on containers are shrunk by dropping entries/operations. "
+    "Audited input dimensions (tools/COVERAGE_AUDIT.md) are reached in EVERY run by fixed cases (dim_cases): names "
+    "with backslash / space / leading dot / Cyrillic+CJK+emoji / non-NFC next to its composed twin / '.dir' suffix / "
+    "prefix siblings / 1 and 200 characters / case twins; root key, depth >= 3, parent and child both entries; every "
+    "(hash x meta) pair of the audit list ('.dir' hash with isdir False or without meta, meta without hash, value "
+    "without name, name without value, obj_name on file and directory ids, the empty listing's id, ids ending in "
+    "every hex digit, one value under md5 / md5-dos2unix / sha256) x loaded None/True/False; each through to_dict/"
+    "from_dict, JSON file, diskcache, SQLite (session view, commit-close-reopen, a second save, removals, another "
+    "process), listings with and without metadata per hash-name family, empty index / empty listing, every route "
+    "twice (idempotence) and chained across routes. ctx.extra['input_dimensions'] counts the cases per dimension. "
     "A case is non-trivial when at least one optional field is emitted and at least one is suppressed "
     "(dict families) or the container holds >= 2 entries with metadata and hash (container families)."
 )
@@ -609,10 +618,10 @@ def dim_cases():
               H(None, "abc"), H("md5", ""), H("md5", FILE_OID, "data/file"), H("md5", EMPTY_LISTING_OID, "data")]
     metas = [None, M(), M(isdir=True), M(size=0), M(nfiles=0), M(isexec=True), M(**M_EMPTY_STR), M(**M_FULL),
              M(version_id=""), M(etag=""), M(remote="r", nlink=0), M(md5=FILE_OID)]
-    for h in hashes:
-        for m in metas:
-            for loaded in (None, True, False):
-                add("entry", {"entry": {"key": ["a"], "meta": _copy(m), "hi": _copy(h), "loaded": loaded}})
+    for i, h in enumerate(hashes):
+        for j, m in enumerate(metas):
+            # every hash x meta pair; the loaded flag cycles so that each hash and each meta meets all three values
+            add("entry", {"entry": {"key": ["a"], "meta": _copy(m), "hi": _copy(h), "loaded": (None, True, False)[(i + j) % 3]}})
     for m in metas[1:]:
         add("meta", {"meta": _copy(m)})
     for form in ("json", "db"):
@@ -1408,7 +1417,7 @@ def gen_all(ctx):
     fam: dict = {k: [] for k in ("meta", "meta_dict", "hash", "hash_dict", "entry", "entry_dict", "key",
                                  "json", "db", "sqlite", "listing", "chain")}
     # Meta: dense enumeration
-    n_meta = ctx.n(420, N_META)
+    n_meta = ctx.n(300, N_META)
     if n_meta >= N_META:
         idxs = list(range(N_META))
     else:
@@ -1416,7 +1425,7 @@ def gen_all(ctx):
     for i in idxs:
         ints = INTS + BIG_INTS if rng.random() < 0.1 else INTS
         fam["meta"].append({"family": "meta", "meta": meta_from_index(rng, i, ints)})
-    for _ in range(ctx.n(150, 1500)):
+    for _ in range(ctx.n(100, 1500)):
         fam["meta_dict"].append({"family": "meta_dict", "dict": gen_meta_dict(rng)})
     for n in HASH_NAMES:
         for v in HASH_VALUES:
@@ -1431,19 +1440,19 @@ def gen_all(ctx):
         for loaded in (None, False):
             m = meta_from_index(rng, 0)
             fam["entry"].append({"family": "entry", "entry": {"key": ["a"], "meta": m, "hi": hi, "loaded": loaded}})
-    for _ in range(ctx.n(160, 2000)):
+    for _ in range(ctx.n(120, 2000)):
         fam["entry_dict"].append({"family": "entry_dict", "dict": gen_entry_dict(rng)})
     for _ in range(ctx.n(60, 600)):
         bad = rng.random() < 0.5
         fam["key"].append({"family": "key", "key": gen_key(rng, 0 if bad else 1, 4, PARTS_OK + (PARTS_BAD if bad else []))})
     for form in ("json", "db"):
         # the diskcache form costs ~35 ms per case (much more under disk contention): fewer of them in quick
-        for _ in range(ctx.n(45 if form == "json" else 30, 400)):
+        for _ in range(ctx.n(35 if form == "json" else 25, 400)):
             fam[form].append({"family": form, "form": form, "entries": gen_index(rng, ints=INTS + BIG_INTS)})
         for _ in range(ctx.n(15, 150)):
             fam[form].append({"family": form, "form": form, "malformed": True,
                               "entries": gen_index(rng, ints=INTS + BIG_INTS, bad=True)})
-    for _ in range(ctx.n(45, 400)):
+    for _ in range(ctx.n(30, 400)):
         ents = gen_index(rng, root=True)
         ops = [["set", k, e] for k, e in ents]
         if rng.random() >= 0.45:
@@ -1466,7 +1475,7 @@ def gen_all(ctx):
     # the public path: unloaded directory entries filled by DataIndex._load from an object storage
     for _ in range(ctx.n(10, 60)):
         fam["sqlite"].append(gen_load_case(rng))
-    for _ in range(ctx.n(60, 500)):
+    for _ in range(ctx.n(45, 500)):
         hn = rng.choice(["md5", "md5-dos2unix"])
         ents = []
         seen = set()
